@@ -17,7 +17,7 @@ EXHAUSTIVE = True
 RULE = ("random populations (2-7 instances of Person/Employee/Manager, Org/Dept, Chief roles; an eighth of the cases use value-equal but distinct VOrg / VPerson twins) and fact sets of 1-8 "
         "facts over {works_for, head_of, member_of, members, sub_org_of (transitive), wholly_owned_by (sub-property of "
         "sub_org_of), chairs / attends (a role whose super-property lives on a subclass of the declared role taker type), under (the same transitive property declared on another class under another field name), part_of/has_part (transitive + inverse)} including chains, diamonds and cycles, asserted in a random order through a random write form "
-        "(assignment, container assignment while empty, append, extend, insert, add, update); a bank of fixed fact sets "
+        "(assignment, container assignment while empty, container assignment over inferred values, the constructor of the subject, append, extend, insert, add, update); a bank of fixed fact sets "
         "(chains, diamond, cycles, role-taker chains) is run in ALL permutations (<=5 facts quick, <=6 thorough).  "
         "Non-trivial = the closure contains at least two derived facts beyond the asserted ones; distinct = (fact "
         "kinds in assertion order, write forms, population shape)")
@@ -34,7 +34,7 @@ def plan(tier):
     return {"cases": 3000 if tier == "quick" else 100000, "shards": 16, "case_timeout": 60, "shard_timeout": 3000,
             "min_nontrivial": 100,
             "min_counters": {"facts_asserted": 8000, "derived_facts_checked": 8000, "permutation_cases": 500,
-                             "field:sub_org_of": 500, "field:head_of": 300, "field:part_of": 300, "field:under": 100, "field:chairs": 50}}
+                             "field:sub_org_of": 500, "field:head_of": 300, "field:part_of": 300, "field:under": 100, "field:chairs": 50, "form:ctor": 200, "form:assign_keep": 30}}
 
 
 def setup(ctx):
@@ -42,8 +42,10 @@ def setup(ctx):
     ctx["om"] = ontomodel
 
 
-LIST_FORMS = ["append", "append", "extend", "insert", "assign_empty"]
-SET_FORMS = ["add", "add", "update", "assign_empty"]
+# ctor: the fact is given to the constructor of its subject (when the subject has not been created yet);
+# assign_keep: a new collection is assigned while the field holds inferred values only
+LIST_FORMS = ["append", "append", "extend", "insert", "assign_empty", "ctor", "assign_keep"]
+SET_FORMS = ["add", "add", "update", "assign_empty", "ctor", "assign_keep"]
 FIELD_KIND = {"works_for": ("person", "org", "single"), "head_of": ("chief", "org", "single"),
               "member_of": ("person", "org", "list"), "members": ("org", "member", "set"),
               "sub_org_of": ("org", "org", "list"), "part_of": ("org", "org", "list"), "has_part": ("org", "org", "list"),
@@ -107,7 +109,7 @@ def gen_facts(rng, pop, n):
             single_used.add((s, f))
         if (s, f, o) in [tuple(x[:3]) for x in facts]:
             continue
-        form = "assign" if kind == "single" else rng.choice(LIST_FORMS if kind == "list" else SET_FORMS)
+        form = rng.choice(["assign", "assign", "assign", "ctor"]) if kind == "single" else rng.choice(LIST_FORMS if kind == "list" else SET_FORMS)
         facts.append([s, f, o, form])
     return facts
 
@@ -194,18 +196,36 @@ def witnesses():
     return {
         "role-taker-subclass-super-property": {"pop": [["v0", "Delegate", None], ["o0", "Org", None], ["h0", "Chair", "v0"]],
                                                "facts": [["h0", "chairs", "o0", "assign"]]},
+        "assignment-drops-inferred-values": {"pop": [["p0", "Person", None], ["p1", "Person", None], ["o0", "Org", None]],
+                                             "facts": [["p0", "works_for", "o0", "assign"], ["o0", "members", "p1", "assign_keep"]]},
+        "constructor-sub-property-before-super-field": {"pop": [["p0", "Person", None], ["o0", "Org", None]],
+                                                        "facts": [["p0", "works_for", "o0", "ctor"]]},
         "transitive-property-on-two-classes": {"pop": [["u0", "Unit", None], ["o0", "Org", None], ["o1", "Org", None]],
                                                "facts": [["o0", "sub_org_of", "o1", "append"], ["u0", "under", "o0", "append"]]},
     }
 
 
-def assert_fact(named, s, f, o, form):
-    S, O = named[s], named[o]
+def assert_fact(named, s, f, o, form, asserted=()):
     kind = FIELD_KIND[f][2]
+    O = named[o]
+    if form == "ctor" and s not in named:
+        # the fact is asserted by the constructor of its subject
+        named.create(s, **{f: O if kind == "single" else [O] if kind == "list" else {O}})
+        return "ctor"
+    S = named[s]
     if kind == "single":
         setattr(S, f, O)
         return "assign"
     cont = getattr(S, f)
+    if form == "ctor":
+        form = "append" if kind == "list" else "add"
+    if form == "assign_keep":
+        name_of = {id(v): k for k, v in named.items()}
+        if len(cont) and not any((s, f, name_of.get(id(x))) in asserted for x in cont):
+            # everything the field holds was inferred; it stays derivable, whatever is assigned
+            setattr(S, f, [O] if kind == "list" else {O})
+            return "assign_keep"
+        form = "append" if kind == "list" else "add"
     if form == "assign_empty":
         if len(cont) == 0:
             setattr(S, f, [O] if kind == "list" else {O})
@@ -232,29 +252,50 @@ def run(spec, ctx):
     C = ctx["counters"]
     SymbolGraph().clear()
     sg = SymbolGraph()
-    named, kinds, taker = {}, {}, {}
-    for name, cls, tk in spec["pop"]:
+    kinds, taker = {}, {}
+    pop = {name: (cls, tk) for name, cls, tk in spec["pop"]}
+    for name, (cls, tk) in pop.items():
         kinds[name] = cls
-        if cls == "Chief":
-            named[name] = om.Chief(named[tk])
+        if cls in ("Chief", "Chair"):
             taker[name] = tk
-        elif cls == "Chair":
-            named[name] = om.Chair(named[tk])
-            taker[name] = tk
-        elif cls in ("VOrg", "VPerson"):
-            named[name] = om.ALL_CLASSES[cls](tk)          # the display name repeats: value-equal twins
-            C["twin_instances"] += 1
-        else:
-            named[name] = om.ALL_CLASSES[cls](name)
+
+    class Named(dict):
+        """the instances by name, created when they are first needed (so that a fact can be given to a constructor)"""
+
+        def create(self, name, **kwargs):
+            cls, tk = pop[name]
+            if cls in ("Chief", "Chair"):
+                obj = om.ALL_CLASSES[cls](self[tk], **kwargs)
+            elif cls in ("VOrg", "VPerson"):
+                obj = om.ALL_CLASSES[cls](tk, **kwargs)          # the display name repeats: value-equal twins
+                C["twin_instances"] += 1
+            else:
+                obj = om.ALL_CLASSES[cls](name, **kwargs)
+            self[name] = obj
+            return obj
+
+        def __missing__(self, name):
+            return self.create(name)
+
+    named = Named()
+    if not any(form == "ctor" for _, _, _, form in spec["facts"]):
+        for name in pop:
+            named[name]
     forms_used = []
+    asserted = set()
     try:
         for s, f, o, form in spec["facts"]:
-            forms_used.append(assert_fact(named, s, f, o, form))
+            forms_used.append(assert_fact(named, s, f, o, form, asserted))
+            asserted.add((s, f, o))
             C["facts_asserted"] += 1
             C["field:" + f] += 1
+            C["form:" + forms_used[-1]] += 1
     except Exception as e:
         return {"status": "fail", "kind": "assertion-raised:" + type(e).__name__, "key": None,
-                "detail": f"{type(e).__name__}: {e}"[:300] + f" | facts={spec['facts']}"}
+                "detail": f"{type(e).__name__}: {e}"[:300] + f" | facts={spec['facts']} forms={forms_used}"}
+    for name in pop:
+        named[name]
+    named = dict(named)
     facts = {(s, f, o) for s, f, o, _ in spec["facts"]}
     exp = OC.closure(facts, kinds, taker)
     C["derived_facts_checked"] += len(exp) - len(facts)
